@@ -388,12 +388,99 @@ theorem vals_createUpstreamRequest (hop : List Str) (hc : CanonicalNames hop) (r
     · have : (k == sXFF) = false := by simp [hk]
       simp [hk, this, vals_stripHop hop hc]
 
+theorem canon_sAuthorization : canon sAuthorization = sAuthorization := by decide
+
+theorem vals_applyCred (cred : Option Str) (h : Hdr) (k : Str) :
+    (applyCred cred h).vals k = credEffect cred k (h.vals k) := by
+  unfold applyCred credEffect
+  cases cred with
+  | none => rfl
+  | some c =>
+    simp only [Hdr.get, canon_sAuthorization]
+    by_cases hk : k = sAuthorization
+    · subst hk
+      generalize (h.vals sAuthorization).headD [] = x
+      cases hb : (x == ([] : Str))
+      · simp
+      · simp only [if_true, beq_self_eq_true, Bool.true_and]
+        rw [Hdr.vals_set, canon_sAuthorization]; simp
+    · have hk' : (k == sAuthorization) = false := by simp [hk]
+      simp only [hk', Bool.false_and, Bool.false_eq_true, if_false]
+      generalize (h.vals sAuthorization).headD [] = x
+      cases hb : (x == ([] : Str))
+      · simp
+      · simp only [if_true]
+        rw [Hdr.vals_set, canon_sAuthorization]; simp [hk]
+
+theorem vals_applyRepl (repl : Str → Str) (fr : Str × List (Str × Str)) (h : Hdr) (k : Str) :
+    (applyRepl repl h fr).vals k = if k = canon fr.1 then fr.2.foldl (replOn repl) (h.vals k) else h.vals k := by
+  obtain ⟨field, pts⟩ := fr
+  unfold applyRepl
+  simp only
+  induction pts generalizing h with
+  | nil => simp
+  | cons pt pts ih =>
+    simp only [List.foldl_cons]
+    rw [ih]
+    by_cases hk : k = canon field
+    · subst hk
+      simp only [if_true]
+      congr 1
+      unfold replOn Hdr.get
+      by_cases hc : (repl pt.2 != [] && (h.vals (canon field)).headD [] != []) = true
+      · simp only [hc, if_true]; rw [Hdr.vals_set]; simp
+      · simp only [hc, Bool.false_eq_true, if_false]
+    · simp only [hk, if_false]
+      by_cases hc : (repl pt.2 != [] && h.get field != []) = true
+      · simp only [hc, if_true]; rw [Hdr.vals_set]; simp [hk]
+      · simp only [hc, Bool.false_eq_true, if_false]
+
+theorem replEffect_none (repl : Str → Str) (repls : Repls) (k : Str) (old : List Str)
+    (hno : (replTargets repls).contains k = false) : replEffect repl repls k old = old := by
+  unfold replEffect
+  have : repls.find? (fun fr => canon fr.1 == k) = none := by
+    rw [List.find?_eq_none]
+    intro fr hfr
+    simp only [replTargets, List.contains_eq_mem, List.mem_map, decide_eq_false_iff_not, not_exists, not_and] at hno
+    have := hno fr hfr
+    simpa using this
+  rw [this]
+
+theorem vals_applyRepls (repl : Str → Str) (repls : Repls) (h : Hdr) (k : Str)
+    (hd : replsDistinct repls = true) :
+    (applyRepls repl h repls).vals k = replEffect repl repls k (h.vals k) := by
+  induction repls generalizing h with
+  | nil => rfl
+  | cons fr rs ih =>
+    have hd' : (!(replTargets rs).contains (canon fr.1) && replsDistinct rs) = true := hd
+    simp only [Bool.and_eq_true, Bool.not_eq_true'] at hd'
+    show (applyRepls repl (applyRepl repl h fr) rs).vals k = _
+    rw [ih _ hd'.2, vals_applyRepl]
+    by_cases ht : k = canon fr.1
+    · subst ht
+      rw [replEffect_none _ _ _ _ hd'.1]
+      simp [replEffect, List.find?]
+    · have : (canon fr.1 == k) = false := by
+        simp only [beq_eq_false_iff_ne, ne_eq]; exact fun h => ht h.symm
+      simp only [ht, if_false]
+      simp [replEffect, List.find?, this]
+
 theorem vals_forward (hop : List Str) (hc : CanonicalNames hop) (repl : Str → Str) (u : Upstream) (r : Request)
-    (hne : Hdr.NoEmpty r.header) (hni : nonInterfering u.upRules = true) (k : Str) :
+    (hne : Hdr.NoEmpty r.header) (hni : nonInterfering u.upRules = true) (hrd : replsDistinct u.upRepls = true)
+    (k : Str) :
     (forward hop repl u r).header.vals k = expectReqVals hop repl u r k := by
   unfold forward attempt expectReqVals
   simp only
-  rw [vals_applyRules _ _ _ _ hni, vals_createUpstreamRequest hop hc r hne]
+  rw [vals_applyRepls _ _ _ _ hrd, vals_applyRules _ _ _ _ hni, vals_applyCred,
+    vals_createUpstreamRequest hop hc r hne]
+  rfl
+
+theorem forward_host (hop : List Str) (hc : CanonicalNames hop) (repl : Str → Str) (u : Upstream) (r : Request)
+    (hne : Hdr.NoEmpty r.header) (hni : nonInterfering u.upRules = true) (hrd : replsDistinct u.upRepls = true) :
+    (forward hop repl u r).host = expectHost hop repl u r := by
+  have := vals_forward hop hc repl u r hne hni hrd sHost
+  unfold expectHost
+  rw [← this]
   rfl
 
 theorem forward_method (hop : List Str) (repl : Str → Str) (u : Upstream) (r : Request) :
